@@ -83,8 +83,7 @@ RECURSIVE WalkSeq(_)
 WalkSeq(fs) == IF Len(fs) = 0 THEN 0 ELSE FieldBytes(Head(fs)) + WalkSeq(Tail(fs))
 Walk(s) == WalkSeq(ProofGrammar(s))
 \* which lengths does the decoder take from the input?
-ReadFromInput(s) == {f.name : f \in {ProofGrammar(s)[i] : i \in 1..Len(ProofGrammar(s))} \cap
-                                    {g \in {ProofGrammar(s)[i] : i \in 1..Len(ProofGrammar(s))} : g.len # "implied"}}
+ReadFromInput(s) == LET g == ProofGrammar(s) IN {g[i].name : i \in {j \in 1..Len(g) : g[j].len # "implied"}}
 
 \* ---- closed formulas ----------------------------------------------------------------------------
 OpeningsBytes(s) == E * (s.nconst + s.routed + s.wires + 2 * s.nch + 2 * s.nch * s.nlp + s.npp * s.nch + s.qdf * s.nch)
